@@ -503,6 +503,31 @@ def gen_xlcorpus(outdir, seed, count):
     for i in range(300):
         m.func([], [I32], [("i32.const", i)], export=wild_name(r, used, 3000 + r.randrange(2000), tame=(i % 2 == 0)), nm="n%d" % i)
     emit("m902", m)
+    # label-stack growth and reuse: very deep functions in the middle of many shallow ones (several per output file)
+    m = Module(); m.memory(1)
+    for i in range(6):
+        m.func([I32], [I32], [("local.get", 0), ("i32.const", 1000 + i), "i32.xor"])
+    for depth in (500 + r.randrange(60), 720 + r.randrange(100), 950 + r.randrange(100)):
+        body = [("block",)] * depth + [("local.get", 0), ("br_if", depth - 1), ("local.get", 0), ("br_if", 0)] + ["end"] * depth + [("local.get", 0)]
+        m.func([I32], [I32], body, export="deep%d" % depth)
+        for i in range(5):
+            m.func([I32], [I32], [("block",), ("local.get", 0), ("br_if", 0), "end", ("local.get", 0), ("i32.const", depth + i), "i32.add"])
+    nsw = 600 + r.randrange(200)
+    sw = [("block",)] * nsw + [("local.get", 0), ("br_table", list(range(nsw - 1)), nsw - 1)] + ["end"] * nsw
+    m.func([I32], [], sw, export="switch")
+    for i in range(6):
+        m.func([I32], [I32], [("loop",), ("local.get", 0), ("br_if", 0), "end", ("i32.const", i)])
+    emit("m904", m)
+    # pinned module (sweep list of C10 only): nesting deep enough to exhaust any ordinary thread stack - the code generator recurses
+    # once per nesting level (reproduces a recorded finding in every run)
+    m = Module(); m.memory(1)
+    depth = 150000
+    m.func([I32], [I32], [("block",)] * depth + [("local.get", 0), ("br_if", depth - 1)] + ["end"] * depth + [("local.get", 0)], export="abyss")
+    data = m.encode()
+    with open(os.path.join(outdir, "m905.wasm"), "wb") as f:
+        f.write(data)
+    with open(os.path.join(outdir, "sweep_extra.txt"), "w") as f:
+        f.write("m905.wasm - 1 %d -\n" % len(data))
     # pinned module: an import whose module name starts with a digit (reproduces a recorded finding in every run)
     m = Module()
     m.import_func("4tune", "get", [I32], [I32])
